@@ -1,1 +1,21 @@
-From Ase Require Import Model.Dump.
+(* C13: every strict prefix of a valid file that ends before the end of its last frame fails
+   to load with an error; it never loads as a smaller or different sprite.
+   `load_rest inflate bs = Ok (f, rest)`: bs loads as f and `rest` are the bytes after the
+   last frame, so `length bs - length rest` is the offset of the end of the last frame. *)
+From Ase Require Import Proofs.Truncation.
+
+Theorem C13_truncation :
+  forall (inflate : list Z -> Z -> zres) (bs : list Z) (f : file) (rest : list Z) (m : nat),
+    load_rest inflate bs = Ok (f, rest) ->
+    (m < length bs - length rest)%nat ->
+    load inflate (firstn m bs) = Err eof.
+Proof. exact load_truncated. Qed.
+Print Assumptions C13_truncation.
+
+Theorem C13_extension :
+  forall (inflate : list Z -> Z -> zres) (bs : list Z) (f : file) (rest : list Z),
+    load_rest inflate bs = Ok (f, rest) ->
+    forall tail : list Z,
+      load inflate (firstn (length bs - length rest) bs ++ tail) = Ok f.
+Proof. exact load_extension. Qed.
+Print Assumptions C13_extension.
